@@ -166,7 +166,8 @@ def pslq(ctx, x, tol=None, maxcoeff=1000, maxsteps=100, verbose=False):
     # (A relation is invariant under scaling of x, the fixed-point format
     # is not: the largest entry is brought to [1/2, 1).)
     x = [ctx.convert(xk) for xk in x]
-    scale = [ctx.mag(xk) for xk in x if xk and ctx.isfinite(xk)]
+    scale = [ctx.mag(xk) for xk in x
+        if xk and not (ctx.isinf(xk) or ctx.isnan(xk))]
     if scale:
         x = [ctx.ldexp(xk, -max(scale)) for xk in x]
     x = [None] + [ctx.to_fixed(xk, prec) for xk in x]
